@@ -87,7 +87,21 @@ NESTED_META = lambda tag: {'a': [1, {'b': 2}], 'tag': tag}  # noqa: E731
 
 
 def make_graphs(rng):
-    """a time-series DAG (latest lag 0) and a plain DAG, nested mutable metadata on graph, every node and every edge"""
+    """a time-series DAG (latest lag 0) and a plain DAG; nested mutable metadata on the graph and on most nodes and edges, the
+    others carry no metadata, an explicitly passed empty dictionary or a null-valued tag (an empty container can be shared
+    between two holders just as well as a full one)"""
+    count = [0]
+
+    def NESTED_META(tag):
+        count[0] += 1
+        r = rng.random()
+        if count[0] <= 3 or tag in ('g', 'z0') or r < 0.55:
+            return {'a': [1, {'b': 2}], 'tag': tag}
+        if r < 0.75:
+            return None
+        if r < 0.9:
+            return {}
+        return {'k': None}
     ts = TimeSeriesCausalGraph(meta=NESTED_META('g'))
     vars_ = rng.sample(['x', 'y', 'z'], rng.choice([2, 3]))
     names = [H.ts_name(v, l) for v in vars_ for l in (-2, -1, 0)]
